@@ -4,11 +4,11 @@ CONSTANTS
   SlotSpace = {2, 3}
   Nows = {1, 2, 3}
   Committees = {0, 1}
-  Sizes = {1, 8}
-  Targets = {1, 2, 16}
-  HVals = {0, 1, 4}
+  Sizes = {8}
+  Targets = {2, 16}
+  HVals = {0, 1}
   HMod = 8
   MaxDuties = 3
-  MaxSubs = 2
+  MaxSubs = 1
 INVARIANTS TypeOK AllFutureSubscribed AggregatorRuleExact InfoPrefersAggregator EveryAggregatorCommitteeScheduled NoAggregationForPastSlot
 CHECK_DEADLOCK FALSE
